@@ -179,22 +179,11 @@ impl BufferManager {
         size: usize,
         region: MemoryRegion,
     ) -> Option<MemoryGrant> {
-        // Check if we can allocate
-        let current = self.allocated.load(Ordering::Relaxed);
-
-        if current + size > self.hard_limit {
-            // Try eviction first
-            self.run_eviction_cycle(true);
-
-            // Check again
-            let current = self.allocated.load(Ordering::Relaxed);
-            if current + size > self.hard_limit {
-                return None;
-            }
+        // Reserve the bytes: the limit check and the update must be one atomic step,
+        // otherwise two threads can both pass the check and exceed the hard limit.
+        if !self.try_reserve(size) {
+            return None;
         }
-
-        // Perform allocation
-        self.allocated.fetch_add(size, Ordering::Relaxed);
         self.region_allocated[region.index()].fetch_add(size, Ordering::Relaxed);
 
         // Check pressure and potentially trigger background eviction
@@ -310,6 +299,35 @@ impl BufferManager {
         }
     }
 
+    /// Atomically adds `size` to the allocated total unless that would exceed the
+    /// hard limit (one eviction attempt is made first). Returns whether it succeeded.
+    fn try_reserve(&self, size: usize) -> bool {
+        let mut evicted = false;
+        let mut current = self.allocated.load(Ordering::Relaxed);
+        loop {
+            if current.saturating_add(size) > self.hard_limit {
+                if evicted {
+                    return false;
+                }
+                // Try eviction first, then check again
+                self.run_eviction_cycle(true);
+                evicted = true;
+                current = self.allocated.load(Ordering::Relaxed);
+                continue;
+            }
+
+            match self.allocated.compare_exchange(
+                current,
+                current + size,
+                Ordering::Relaxed,
+                Ordering::Relaxed,
+            ) {
+                Ok(_) => return true,
+                Err(actual) => current = actual,
+            }
+        }
+    }
+
     fn run_eviction_cycle(&self, aggressive: bool) -> usize {
         let target = if aggressive {
             self.soft_limit
@@ -363,19 +381,9 @@ impl GrantReleaser for BufferManager {
     }
 
     fn try_allocate_raw(&self, size: usize, region: MemoryRegion) -> bool {
-        let current = self.allocated.load(Ordering::Relaxed);
-
-        if current + size > self.hard_limit {
-            // Try eviction
-            self.run_eviction_cycle(true);
-
-            let current = self.allocated.load(Ordering::Relaxed);
-            if current + size > self.hard_limit {
-                return false;
-            }
+        if !self.try_reserve(size) {
+            return false;
         }
-
-        self.allocated.fetch_add(size, Ordering::Relaxed);
         self.region_allocated[region.index()].fetch_add(size, Ordering::Relaxed);
         true
     }
